@@ -814,6 +814,7 @@ where
     F::Signed: Fr,
     F::Float: Fr,
     F::Sample: Debug,
+    <F as Frame>::Channels: Clone,
 {
     let h = horizon::<F>(p);
     let m = model_tree::<F>(p, h + 4, &mut 0);
@@ -923,6 +924,25 @@ where
             }
             if got[..] != exp[k..] || it.next().is_some() || it.next().is_some() {
                 return bad("exhaust.interleaved", format!("{name}: after {k} samples through next_sample(), into_iter() yielded {} samples {got:?}, expected the remaining {}: {:?}, then None for good", got.len(), exp.len() - k, &exp[k..]));
+            }
+        }
+        // a clone taken after k samples (also in the middle of a frame) continues exactly like the
+        // original; over a concrete cloneable source that replays the program's frames
+        for k in 0..=exp.len().min(2 * F::CHANNELS + 1) {
+            let frames: Vec<F> = m.frames[..m.t].to_vec();
+            let mut il = signal::from_iter(frames.into_iter()).into_interleaved_samples();
+            for _ in 0..k {
+                il.next_sample();
+            }
+            let mut c1 = il.clone();
+            let mut c2 = il.clone().into_iter();
+            let mut c3 = il.into_iter().clone();
+            for j in k..exp.len() + 2 {
+                let want = exp.get(j).copied();
+                let got = [c1.next_sample(), c2.next(), c3.next()];
+                if got.iter().any(|g| *g != want) {
+                    return bad("exhaust.interleaved", format!("{name}: clones of into_interleaved_samples() taken after {k} samples (the sample source / its iterator / a clone of the iterator): sample #{j} = {got:?}, expected {want:?} as from the original"));
+                }
             }
         }
         // the Iterator protocol (nth, skip, step_by, count, last, size_hint) of the three iterator
